@@ -145,7 +145,83 @@ def fitted_label_sinks(pm) -> dict[str, tuple[ClassInfo, FuncInfo, set[str]]]:
     return sinks
 
 
+def _unseen_dropped(chk):
+    """UNSEEN.dropped - entirely missing samples of new data may be omitted from the scores.  The sanitizer removes them
+    in ``transform``; every stage whose ``transform`` ran BEFORE the sanitizer and whose ``inverse_transform_scores_unseen``
+    re-attaches a coordinate it recorded for ALL samples of the transformed data must pick the entries that are left
+    (``recorded.isel / sel / reindex(... X's own coordinate ...)``) - unless the sanitizer's unseen inverse puts the removed
+    samples back first.  Otherwise the coordinate is longer than the scores and the call raises instead of answering."""
+    pm = chk.pm
+    prep = pm.cls("xeofs.preprocessing.preprocessor.Preprocessor")
+    tt = prep.resolve("transformer_types")
+    chk.require(tt is not None, "Preprocessor.transformer_types vanished")
+    table = []
+    for n in walk_no_nested(tt.node):
+        if isinstance(n, ast.Return) and isinstance(n.value, ast.Call) and isinstance(n.value.func, ast.Name) and n.value.func.id == "dict":
+            table = [(kw.arg, norm(kw.value)) for kw in n.value.keywords if kw.arg]
+        elif isinstance(n, ast.Return) and isinstance(n.value, ast.Dict):
+            table = [(const_str(k), norm(v)) for k, v in zip(n.value.keys, n.value.values)]
+    names = [t[0] for t in table]
+    chk.require("sanitizer" in names, "transformer_types() no longer lists the sanitizer stage")
+    san = pm.cls("xeofs.preprocessing.sanitizer.Sanitizer")
+    su = san.resolve("inverse_transform_scores_unseen")
+    restores = su is not None and any(isinstance(c.func, ast.Attribute) and c.func.attr in ("reindex", "reindex_like", "combine_first") for c in calls_in(su))
+    from .common import class_closure
+    n_obl = 0
+    seen = set()
+    for sname, cname in table[: names.index("sanitizer")]:
+        obj = pm.resolve_name(tt.cls.module if tt.cls is not None else prep.module, cname)
+        cls = obj[1] if obj is not None and obj[0] == "class" else None
+        chk.require(cls is not None, f"stage class {cname} of the preprocessor table not found")
+        if cls.qualname in seen:
+            continue
+        seen.add(cls.qualname)
+        tr, inv = cls.resolve("transform"), cls.resolve("inverse_transform_scores_unseen")
+        if tr is None or inv is None:
+            continue
+        # attributes (or mapping attributes) written by transform
+        recorded = set()
+        for g in class_closure(pm, cls, tr):
+            for st in walk_no_nested(g.node):
+                if isinstance(st, (ast.Assign, ast.AugAssign, ast.AnnAssign)):
+                    for t in (st.targets if isinstance(st, ast.Assign) else [st.target]):
+                        base = t.value if isinstance(t, ast.Subscript) else t
+                        if is_self_attr(base):
+                            recorded.add(base.attr)
+                if isinstance(st, ast.Expr) and isinstance(st.value, ast.Call) and isinstance(st.value.func, ast.Attribute) and st.value.func.attr == "update" \
+                        and is_self_attr(st.value.func.value):
+                    recorded.add(st.value.func.value.attr)
+        if not recorded:
+            continue
+        for g in class_closure(pm, cls, inv):
+            gf = FuncFacts.of(g)
+            data = [p for p in g.params if p not in ("self", "cls")]
+            for st in walk_no_nested(g.node):
+                val = None
+                if isinstance(st, ast.Assign) and len(st.targets) == 1 and isinstance(st.targets[0], ast.Subscript) and isinstance(st.targets[0].value, ast.Attribute) \
+                        and st.targets[0].value.attr == "coords":
+                    val = st.value
+                elif isinstance(st, (ast.Assign, ast.Return, ast.Expr)):
+                    for c in ast.walk(st):
+                        if isinstance(c, ast.Call) and isinstance(c.func, ast.Attribute) and c.func.attr == "assign_coords":
+                            vs = [k.value for k in c.keywords] + [v for a in c.args if isinstance(a, ast.Dict) for v in a.values]
+                            val = vs[0] if vs else None
+                if val is None:
+                    continue
+                ps = [p for p in gf.paths(val, spine_only=True, follow=True) if p.atom.kind == "selfattr" and p.atom.name.split(".")[-1] in recorded]
+                if not ps:
+                    continue
+                n_obl += 1
+                picks = any(any(o.kind == "method" and o.name in ("isel", "sel", "reindex", "reindex_like", "loc", "where") for o in p.ops) for p in ps)
+                chk.check(picks or restores, "UNSEEN.dropped", g, st, construct=f"{cls.name}: coordinate recorded by transform re-attached to what is left of the samples",
+                          why=f"{g.qualname} re-attaches `{norm(val)[:50]}` - recorded by {cls.name}.transform for ALL samples of the new data - to scores from which the sanitizer "
+                              "has removed the entirely missing samples (its unseen inverse does not put them back): the lengths differ and transform raises for new data with "
+                              "a sample MultiIndex or several sample dimensions and an entirely missing sample")
+    chk.require(n_obl >= 1, "UNSEEN.dropped: no stage before the sanitizer re-attaches a coordinate recorded by its transform (anchor vanished)")
+
+
 def check(chk):
+    _unseen_dropped(chk)
     pm = chk.pm
     sinks = fitted_label_sinks(pm)
     chk.info["fitted_label_sinks"] = {k: sorted(v[2]) for k, v in sinks.items()}
